@@ -285,7 +285,138 @@ def rule_export_determinism(ctx: Ctx) -> None:
             ctx.ok("order.sethash", m, fn, what=f"{q}: no set on the export path")
 
 
+# ---------------------------------------------------------------------------------------------- regex groups
+
+
+def _repeated_groups(pattern: str) -> Set[int]:
+    """numbers of capturing groups that sit inside a repetition that can match more than once
+    (`(\\d)+`): such a group only keeps its LAST repetition."""
+    import re._parser as sre  # stdlib regex parser: syntax tree of the pattern, nothing is matched
+    out: Set[int] = set()
+
+    def walk(items, repeated: bool):
+        for op, av in items:
+            name = str(op)
+            if name in ("MAX_REPEAT", "MIN_REPEAT", "POSSESSIVE_REPEAT"):
+                lo, hi, sub = av
+                walk(sub, repeated or hi > 1)
+            elif name == "SUBPATTERN":
+                gid, _, _, sub = av
+                if gid is not None and repeated:
+                    out.add(gid)
+                walk(sub, repeated)
+            elif name == "BRANCH":
+                for alt in av[1]:
+                    walk(alt, repeated)
+            elif name in ("ASSERT", "ASSERT_NOT"):
+                walk(av[1], repeated)
+            elif name == "ATOMIC_GROUP":
+                walk(av, repeated)
+
+    walk(sre.parse(pattern), False)
+    return out
+
+
+def rule_regex_groups(ctx: Ctx) -> None:
+    repo = ctx.repo
+    m = repo.module(DAG)
+    fn = repo.anchor(DAG, "CircuitDAG.from_openqasm")
+    ctx.touch(m, fn)
+    pats: Dict[str, str] = {}
+    n = 0
+    for node in ast.walk(fn):
+        if isinstance(node, ast.Assign) and isinstance(node.value, ast.Call) and (call_name(node.value) or "") in ("re.search", "re.match", "re.fullmatch") \
+                and node.value.args and isinstance(node.value.args[0], ast.Constant) and isinstance(node.targets[0], ast.Name):
+            pats[node.targets[0].id] = node.value.args[0].value
+    for node in ast.walk(fn):
+        pat = None
+        idx = None
+        if isinstance(node, ast.Call) and call_attr(node) in ("group", "groups", "groupdict") and isinstance(node.func, ast.Attribute):
+            recv = node.func.value
+            if isinstance(recv, ast.Call) and (call_name(recv) or "") in ("re.search", "re.match", "re.fullmatch") and recv.args \
+                    and isinstance(recv.args[0], ast.Constant):
+                pat = recv.args[0].value
+            elif isinstance(recv, ast.Name) and recv.id in pats:
+                pat = pats[recv.id]
+            if call_attr(node) == "group":
+                idx = [a.value for a in node.args if isinstance(a, ast.Constant)] or [0]
+            else:
+                idx = ["*"]
+        elif isinstance(node, ast.Subscript) and isinstance(node.value, ast.Name) and node.value.id in pats and isinstance(node.slice, ast.Constant):
+            pat, idx = pats[node.value.id], [node.slice.value]
+        if pat is None:
+            continue
+        n += 1
+        rep = _repeated_groups(pat)
+        bad = sorted(rep) if "*" in idx else sorted(i for i in idx if isinstance(i, int) and i in rep)
+        if bad:
+            ctx.fail("regex.repeated-group", m, node,
+                     f"`{short(node, 90)}` reads capture group {bad} of the pattern {pat!r}; that group is inside a repetition, so it holds "
+                     f"only the LAST repetition (for a register index >= 10 only its last digit): the imported operation lands on another register",
+                     func="CircuitDAG.from_openqasm", construct=f"from_openqasm: group {bad} of {pat}")
+        else:
+            ctx.ok("regex.repeated-group", m, node, what=f"reads group {idx} of {pat!r}")
+    if n == 0:
+        raise AnalysisError("regex.repeated-group: no match-group read found in from_openqasm")
+
+
+# ---------------------------------------------------------------------------------------------- header cover
+
+
+def rule_header_cover(ctx: Ctx) -> None:
+    """Every CircuitDAG edit that places an operation in the circuit records its openQASM imports/definitions
+    (`_openqasm_update(<that operation>)` on every path, directly or through a same-class helper that receives it)."""
+    from .. import flow
+    repo = ctx.repo
+    m = repo.module(DAG)
+    ci = repo.cls("CircuitDAG", DAG)
+    ms = {}
+    for k in repo.mro(ci):
+        for name, f in k.methods().items():
+            ms.setdefault(name, f)
+    ensures: Dict[str, Set[int]] = {name: set() for name in ms}
+    changed = True
+    while changed:
+        changed = False
+        for name, f in ms.items():
+            ps = func_params(f)
+            for i, p_ in enumerate(ps):
+                if i == 0 or i in ensures[name]:
+                    continue
+
+                def hit(node, p_=p_):
+                    if isinstance(node, (ast.If, ast.For, ast.While, ast.Try, ast.With)):
+                        return False
+                    for c in ast.walk(node):
+                        if isinstance(c, ast.Call) and (call_name(c) or "").startswith("self."):
+                            callee = call_attr(c)
+                            if callee == "_openqasm_update" and c.args and norm(c.args[0]) == p_:
+                                return True
+                            for j, a in enumerate(c.args):
+                                if norm(a) == p_ and (j + 1) in ensures.get(callee, set()):
+                                    return True
+                    return False
+
+                if flow.must_pass(f.body, hit):
+                    ensures[name].add(i)
+                    changed = True
+    for api, pos in (("add", 1), ("insert_at", 1), ("replace_op", 2)):
+        f = ms.get(api)
+        if f is None:
+            raise AnalysisError(f"CircuitDAG.{api} missing")
+        ctx.touch(m, f)
+        if pos in ensures[api]:
+            ctx.ok("header.cover", m, f, what=f"CircuitDAG.{api} records the operation's openQASM header material on every path")
+        else:
+            ctx.fail("header.cover", m, f,
+                     f"CircuitDAG.{api} can place `{func_params(f)[pos]}` in the circuit without `_openqasm_update({func_params(f)[pos]})`: the gate "
+                     f"definitions of that operation are missing from the exported openQASM header, so the text uses an undefined gate",
+                     func=f"CircuitDAG.{api}", construct=f"CircuitDAG.{api}: operation enters without _openqasm_update")
+
+
 def run(ctx: Ctx) -> None:
+    rule_regex_groups(ctx)
+    rule_header_cover(ctx)
     rule_table_json(ctx)
     rule_table_qasm(ctx)
     rule_wrapper_export_order(ctx)
@@ -297,6 +428,11 @@ def run(ctx: Ctx) -> None:
 
 
 KNOCKOUTS = [
+    Knockout("regex-repeated-group", DAG,
+             sub_once('                q_reg = int(re.split(r"\\[", q_str[1:])[0])', '                q_reg = int(re.search(r"(e|p)(\\d)+\\[0\\]", command).group(2))'),
+             "regex.repeated-group", "group [2]"),
+    Knockout("header-replace-op", DAG, sub_once("        self._openqasm_update(new_operation)\n        self.dag.nodes[node][\"op\"] = new_operation", "        self.dag.nodes[node][\"op\"] = new_operation"),
+             "header.cover", "replace_op"),
     Knockout("E1-writer-value", OPS, sub_once('        CZ: "cz",\n', '        CZ: "cx",\n'), "table.json", "CZ"),
     Knockout("E2-reader-key", OPS, sub_once('        "h": Hadamard,\n', '        "hd": Hadamard,\n'), "table.qasm", "Hadamard"),
     Knockout("E2-idiom-key", OPS, sub_once('"classical z": ClassicalCZ,', '"classical z": ClassicalCNOT,'), "table.qasm", "classical z"),
